@@ -797,6 +797,7 @@ func c06(c *core.Ctx, r *core.Report) {
 			return ""
 		}, "inject-table@(*component_definition.Property).Inject", injectRows)
 	}
+	isSelfTable(c, r, "C06.R7")
 	// R6: narrowing is a subset
 	if fn, _, _ := narrowingFn(c, ps); fn != nil {
 		nrs, nruns, nund := narrowTable(c, fn, 2)
@@ -816,4 +817,105 @@ func c06(c *core.Ctx, r *core.Report) {
 		r.Undecided("C06.R6", "role:narrowing", "", "narrowing function not found")
 	}
 	r.Exhaustive = true
+}
+
+// isSelfTable: Meta.IsSelf is address identity between the holder's value and the candidate's original address,
+// independent of names; NewBase records the value, its type and its address.
+func isSelfTable(c *core.Ctx, r *core.Report, rule string) {
+	meta := c.Named("component_definition", "Meta")
+	isSelf := c.DeclaredMethod(meta, "IsSelf")
+	if isSelf == nil {
+		r.Undecided(rule, "role:IsSelf", "", "Meta.IsSelf not found")
+		return
+	}
+	bad := ""
+	runs := 0
+	for _, sameAddr := range []bool{true, false} {
+		for _, sameName := range []bool{true, false} {
+			for _, sameAlias := range []bool{true, false} {
+				build := func() (absint.Oracle, []absint.Value, []absint.Value) {
+					t := newTbl(c)
+					mk := func(id string, addr int64, name, alias string) *absint.Tok {
+						m := absint.NewTok(id, "meta")
+						b := absint.NewTok(id+".Base", "base")
+						v := absint.NewTok(id+".Value", "rvalue")
+						v.Attr["addr"] = absint.Int(addr)
+						b.Fields["Value"], b.Fields["originAddress"], b.Fields["Type"] = v, absint.Int(addr), absint.NewTok("T:"+id, "type")
+						m.Fields["Base"], m.Fields["name"], m.Fields["alias"] = b, absint.Str(name), absint.Str(alias)
+						m.Fields["Raw"] = absint.NewTok(id+".Raw", "raw")
+						return m
+					}
+					h := mk("holder", 100, "pkg/T", "h")
+					oa, on, ol := int64(200), "pkg/U", "o"
+					if sameAddr {
+						oa = 100
+					}
+					if sameName {
+						on = "pkg/T"
+					}
+					if sameAlias {
+						ol = "h"
+					}
+					o := mk("other", oa, on, ol)
+					t.ext["(reflect.Value).Pointer"] = func(ip *absint.Interp, a []absint.Value) absint.Value {
+						if v, ok := a[0].(*absint.Tok); ok && v.Attr["addr"] != nil {
+							return v.Attr["addr"]
+						}
+						panic(&absint.Undecided{Msg: "Pointer() of something that is not a definition's Value"})
+					}
+					t.ext["(reflect.Value).UnsafePointer"] = t.ext["(reflect.Value).Pointer"]
+					return t, []absint.Value{h, o}, nil
+				}
+				check := func(ip *absint.Interp, out absint.Outcome) {
+					if out.Panic != nil || len(out.Ret) != 1 || out.Ret[0] != absint.Value(absint.Bool(sameAddr)) {
+						bad = fmt.Sprintf("sameAddress=%v sameTypeName=%v sameCustomName=%v => %s, want %v", sameAddr, sameName, sameAlias, showOutcome(out), sameAddr)
+					}
+				}
+				k, u := runTable(c, isSelf, build, check)
+				runs += k
+				if u != "" {
+					bad = "left the model: " + u
+				}
+			}
+		}
+	}
+	r.Check(bad == "", rule, "IsSelf-table@"+core.FnName(isSelf), c.FnPos(isSelf), fmt.Sprintf("IsSelf is exactly address identity of the holder's value with the candidate's original address, whatever their type or custom names (%d abstract runs) %s", runs, bad))
+	// NewBase
+	nb := c.Func("component_definition", "NewBase")
+	if nb == nil {
+		r.Undecided(rule, "role:NewBase", "", "component_definition.NewBase not found")
+		return
+	}
+	bad = ""
+	build := func() (absint.Oracle, []absint.Value, []absint.Value) {
+		t := newTbl(c)
+		t.ext["reflect.ValueOf"] = func(ip *absint.Interp, a []absint.Value) absint.Value {
+			v := absint.NewTok("V("+absint.Show(a[0])+")", "rvalue")
+			return v
+		}
+		t.ext["reflect.TypeOf"] = func(ip *absint.Interp, a []absint.Value) absint.Value {
+			return absint.NewTok("T("+absint.Show(a[0])+")", "type")
+		}
+		t.ext["(reflect.Value).Pointer"] = func(ip *absint.Interp, a []absint.Value) absint.Value {
+			if isTokID(a[0], "V(component)") {
+				return absint.Int(777)
+			}
+			return absint.Int(-1)
+		}
+		return t, []absint.Value{absint.NewTok("component", "component")}, nil
+	}
+	check := func(ip *absint.Interp, out absint.Outcome) {
+		ok := out.Panic == nil && len(out.Ret) == 1
+		if ok {
+			b, isT := out.Ret[0].(*absint.Tok)
+			ok = isT && isTokID(b.Fields["Value"], "V(component)") && isTokID(b.Fields["Type"], "T(component)") && b.Fields["originAddress"] == absint.Value(absint.Int(777))
+		}
+		if !ok {
+			bad = showOutcome(out)
+		}
+	}
+	if _, u := runTable(c, nb, build, check); u != "" {
+		bad = "left the model: " + u
+	}
+	r.Check(bad == "", rule, "NewBase-table@"+core.FnName(nb), c.FnPos(nb), "NewBase records the component's reflect value, its type and that value's address "+bad)
 }
